@@ -456,7 +456,7 @@ def correspondence(rng, tier):
         S = make_space(rng, rng.choice(SPACE_KINDS))
         depth = rng.choice([2, 2, 3] if quick else [2, 3, 3, 4])
         _add(cs, rng, S, gen_tree(rng, S, depth, vs), vs)
-    return [cs, sepsum_cases(rng, tier, vs), moreau_cases(rng, tier)]
+    return [cs, sepsum_cases(rng, tier, vs), moreau_cases(rng, tier), numgrad_cases(rng, tier, vs)]
 
 
 def sepsum_cases(rng, tier, vs):
@@ -482,6 +482,31 @@ def sepsum_cases(rng, tier, vs):
                    C.qs(g1), C.qs(g2), C.q(dv), ilip(f.grad_lipschitz), C.b(bool(f.is_linear))))
         cs.add(term, {'spaces': [S1.kind, S2.kind], 'f1': f1.desc, 'f2': f2.desc, 'x': [x1, x2], 'd': [d1, d2]},
                (S1.kind, S2.kind, repr(f1.desc), repr(f2.desc), tuple(x1), tuple(x2)))
+    return cs
+
+
+def numgrad_cases(rng, tier, vs):
+    """NumericalGradient(f, method, step) on 1-d tensor spaces (as the code computes it, weights ignored)"""
+    import odl
+    cs = C.CaseSet('numgrad', ['Base.Vec', 'C09.Model', 'C09.Corr'], 'check4', 'case4')
+    for kind in ('rn', 'rn1', 'rn_cw', 'rn_cw2', 'rn_aw', 'discr', 'discr_big'):
+        for m, mc in (('forward', 'NGForward'), ('backward', 'NGBackward'), ('central', 'NGCentral')):
+            for _ in range(2 if tier == 'quick' else 10):
+                S = make_space(rng, kind)
+                node = gen_tree(rng, S, rng.choice([0, 1, 2]), vs)
+                h = rng.choice([0.5, 0.25, 1.0, 2.0])
+                x = vec(rng, S)
+                try:
+                    out = S.flat(odl.solvers.NumericalGradient(node.py, method=m, step=h)(S.elem(x)))
+                except Exception as e:
+                    _RAISED.append({'tree': ['NumericalGradient', node.desc], 'space': S.kind, 'weights': S.w,
+                                    'raised': '%s: %s' % (type(e).__name__, str(e)[:200])})
+                    continue
+                if not all(math.isfinite(t) for t in out):
+                    continue
+                term = '(mkCase4 %s %s %s %s %s %s)' % (S.wq, node.coq, mc, C.q(h), C.qs(x), C.qs(out))
+                cs.add(term, {'space': S.kind, 'method': m, 'step': h, 'tree': node.desc, 'x': x},
+                       (S.kind, m, h, repr(node.desc), tuple(x)))
     return cs
 
 
